@@ -172,3 +172,16 @@ pub fn structure_oracle<T>(s: &VerifSnapshot<T>, key: &dyn Fn(&T) -> i64) -> Res
     }
     Ok((count, height))
 }
+
+/// raw arena, field by field (the arena-level model is compared with this, stale slots included):
+/// `R <root> <cap> <nUnused> u… N <n> (<parent> <left> <right> <red> <key> <exp> <val>)*`
+pub fn raw<T>(s: &VerifSnapshot<T>, ent: &dyn Fn(&T) -> (i64, i64, i64)) -> String {
+    let mut o = format!("R {} {} {}", s.root, s.unused_capacity, s.unused.len());
+    for u in &s.unused { o.push_str(&format!(" {}", u)); }
+    o.push_str(&format!(" N {}", s.nodes.len()));
+    for n in &s.nodes {
+        let (k, e, v) = ent(&n.entity);
+        o.push_str(&format!(" {} {} {} {} {} {} {}", n.parent, n.left, n.right, if n.red { 1 } else { 0 }, k, e, v));
+    }
+    o
+}
